@@ -51,7 +51,12 @@ type stageSpec struct {
 	NextPanic bool     `json:"next_panic,omitempty"` // NextStages() panics
 	PlanPanic bool     `json:"plan_panic,omitempty"` // Plan() panics
 	// CompletePanic: the stage's Complete() callback (called by the state machine when the stage is over) panics
-	CompletePanic bool         `json:"complete_panic,omitempty"`
+	CompletePanic bool `json:"complete_panic,omitempty"`
+	// Shaping of the schedule (legal for the property, which holds for every completion order): the stage's Complete()
+	// callback - called by the state machine under its mutex - first waits until the stage HookWaitStage-1 has entered
+	// its completion/error handler (0: nobody), then sleeps HookDelayUs microseconds.
+	HookWaitStage int          `json:"hook_waits_for_stage_plus1,omitempty"`
+	HookDelayUs   int          `json:"hook_delay_us,omitempty"`
 	Children      []*stageSpec `json:"children,omitempty"`
 }
 
@@ -98,6 +103,9 @@ func (t *treeSpec) canon() string {
 		}
 		if s.CompletePanic {
 			sb.WriteString("!complete")
+		}
+		if s.HookWaitStage > 0 || s.HookDelayUs > 0 {
+			fmt.Fprintf(&sb, "~w%d~d%d", s.HookWaitStage, s.HookDelayUs/500)
 		}
 		if len(s.Children) > 0 {
 			sb.WriteByte('(')
@@ -378,6 +386,60 @@ func wideSpec(r *rand.Rand) *treeSpec {
 			out = oNFIgnored
 		case 3:
 			out = oCompletePanic
+		}
+		root.Children = append(root.Children, simpleStage(true, out))
+	}
+	t := &treeSpec{Root: root}
+	renumber(t)
+	return t
+}
+
+// shapedSpec: sibling stages under one parent, k succeed and one fails; the Complete() callback of the inline sibling
+// that completes just before its parent holds the state machine's mutex until the failing pooled stage has reached the
+// state machine and then a little longer (seeded 0-3 ms), so the failing stage queues on the mutex while the last stage
+// of the pipeline completes right behind the holder. Which stage is last varies: the direct parent, or a chain of
+// inline ancestors above it, or a pooled parent.
+func shapedSpec(r *rand.Rand) *treeSpec {
+	ok := func(async bool) *stageSpec { return simpleStage(async, oOK) }
+	parent := ok(r.Intn(4) == 0)
+	for k := r.Intn(4); k > 0; k-- {
+		a := ok(true)
+		if r.Intn(2) == 0 {
+			a.HookDelayUs = r.Intn(3000)
+		}
+		parent.Children = append(parent.Children, a)
+	}
+	failing := simpleStage(true, []string{oErr, oErr, oPanicStr, oNFPlain}[r.Intn(4)])
+	parent.Children = append(parent.Children, failing)
+	if r.Intn(3) == 0 {
+		parent.Children = append(parent.Children, ok(true))
+	}
+	holder := ok(false)
+	holder.HookDelayUs = []int{0, 300, 1200, 1500, 2000, 2500, 3000}[r.Intn(7)]
+	parent.Children = append(parent.Children, holder)
+	parent.HookDelayUs = r.Intn(3000)
+	root := parent
+	for k := r.Intn(3); k > 0; k-- {
+		up := ok(false)
+		up.HookDelayUs = r.Intn(2000)
+		up.Children = []*stageSpec{root}
+		root = up
+	}
+	t := &treeSpec{Root: root}
+	renumber(t)
+	holder.HookWaitStage = failing.ID + 1
+	return t
+}
+
+// stressSpec: a fan-out of pooled stages, one of them fails, nothing is shaped.
+func stressSpec(r *rand.Rand) *treeSpec {
+	root := simpleStage(r.Intn(3) == 0, oOK)
+	n := 3 + r.Intn(5)
+	f := r.Intn(n)
+	for i := 0; i < n; i++ {
+		out := oOK
+		if i == f {
+			out = oErr
 		}
 		root.Children = append(root.Children, simpleStage(true, out))
 	}
